@@ -952,6 +952,18 @@ func (x *Exec) runBlock(fr *Frame, st *State, b *ssa.BasicBlock, from *ssa.Basic
 	if x.truncated {
 		return
 	}
+	if idx == 0 && from != nil && fr.isEntry && x.ctr != nil && len(x.ctr.LoopExit) > 0 {
+		// control leaves a loop for the code after it: `loop N exit E`
+		for h, ord := range fr.loops.headers {
+			// (the normal exit: the loop condition, evaluated in the header, is false)
+			if cs := x.ctr.LoopExit[ord]; len(cs) > 0 && from == h && !fr.loops.body[h][b] && h != b {
+				env := x.loopEnv(fr, st, h)
+				for _, c := range cs {
+					x.oblige(st, "INV", fmt.Sprintf("loop%d/exit(%s)", ord, c.Src), x.evalBool(env, c.Expr), "condition on leaving the loop")
+				}
+			}
+		}
+	}
 	if idx == 0 {
 		if ord, ok := fr.loops.headers[b]; ok {
 			if from != nil && fr.loops.body[b][from] {
